@@ -16,6 +16,10 @@ for n in names:
                        capture_output=True, text=True)
     lines = [l for l in r.stdout.splitlines() if l.startswith("check ") or l.startswith("demo")]
     caught = any("exit=1" in l for l in lines if l.startswith("check "))
+    if not any(l.startswith("check ") for l in lines):
+        print("ERROR  " + n + " " + (r.stderr or r.stdout)[-300:].replace("\n", " | "))
+        bad += 1
+        continue
     print(("CAUGHT " if caught else "MISSED ") + n)
     for l in lines:
         print("    " + l[:300])
